@@ -13,6 +13,9 @@ file (computed on the AST, written back with ast.unparse) and *all* claimed chec
   retvar       return EXPR -> _ret = EXPR; return _ret
   ternary2if   x = a if c else b -> if/else statement
   comp2loop    X = [elt for v in it if c] -> explicit loop with append
+  extractarg   y = f(g(x), ...) -> _a = g(x); y = f(_a, ...)
+  enum2range   for i, x in enumerate(xs) -> for i in range(len(xs)): x = xs[i]
+  assert2raise assert c, msg -> if not c: raise AssertionError(msg)
 """
 import ast
 import concurrent.futures
@@ -172,7 +175,72 @@ class Comp2Loop(ast.NodeTransformer):
         return node
 
 
-TRANSFORMS = {'unparse': None, 'rename': Rename, 'augassign': AugAssign, 'swapcmp': SwapCmp, 'invertif': InvertIf, 'kwsort': KwSort, 'retvar': RetVar, 'ternary2if': Ternary2If, 'comp2loop': Comp2Loop}
+
+
+class ExtractArg(ast.NodeTransformer):
+    """y = f(g(x), ...)  ->  _a<n> = g(x); y = f(_a<n>, ...)   (first positional argument that is itself a call; simple statements only)"""
+    def __init__(self):
+        self.n = 0
+
+    def generic_visit(self, node):
+        super().generic_visit(node)
+        for f in ('body', 'orelse', 'finalbody'):
+            v = getattr(node, f, None)
+            if isinstance(v, list) and v and isinstance(v[0], ast.stmt):
+                out = []
+                for st in v:
+                    call = None
+                    if isinstance(st, (ast.Assign, ast.Return, ast.Expr)) and isinstance(st.value, ast.Call):
+                        call = st.value
+                    if call is not None and call.args and isinstance(call.args[0], ast.Call) and not isinstance(node, ast.ClassDef) \
+                            and isinstance(call.func, (ast.Name, ast.Attribute)) and not any(isinstance(a, ast.Starred) for a in call.args):
+                        # keep left-to-right evaluation: the callee expression must be a plain (dotted) name
+                        fn = call.func
+                        while isinstance(fn, ast.Attribute):
+                            fn = fn.value
+                        if isinstance(fn, ast.Name):
+                            self.n += 1
+                            tmp = '_a%d' % self.n
+                            out.append(ast.copy_location(ast.Assign(targets=[ast.Name(id=tmp, ctx=ast.Store())], value=call.args[0]), st))
+                            call.args[0] = ast.Name(id=tmp, ctx=ast.Load())
+                    out.append(st)
+                setattr(node, f, out)
+        return node
+
+
+
+
+class Enum2Range(ast.NodeTransformer):
+    """for i, x in enumerate(xs): ...  ->  for i in range(len(xs)): x = xs[i]; ...   (xs a plain or dotted name)"""
+    def visit_For(self, node):
+        self.generic_visit(node)
+        it = node.iter
+        if isinstance(it, ast.Call) and isinstance(it.func, ast.Name) and it.func.id == 'enumerate' and len(it.args) == 1 and not it.keywords \
+                and isinstance(node.target, ast.Tuple) and len(node.target.elts) == 2 and all(isinstance(e, ast.Name) for e in node.target.elts):
+            xs = it.args[0]
+            base = xs
+            while isinstance(base, ast.Attribute):
+                base = base.value
+            if isinstance(base, ast.Name):
+                i, x = node.target.elts
+                get = ast.Assign(targets=[ast.Name(id=x.id, ctx=ast.Store())], value=ast.Subscript(value=xs, slice=ast.Name(id=i.id, ctx=ast.Load()), ctx=ast.Load()))
+                new = ast.For(target=ast.Name(id=i.id, ctx=ast.Store()),
+                              iter=ast.Call(func=ast.Name(id='range', ctx=ast.Load()), args=[ast.Call(func=ast.Name(id='len', ctx=ast.Load()), args=[xs], keywords=[])], keywords=[]),
+                              body=[get] + node.body, orelse=node.orelse)
+                return ast.copy_location(new, node)
+        return node
+
+
+
+
+class Assert2Raise(ast.NodeTransformer):
+    """assert c, msg  ->  if not c: raise AssertionError(msg)"""
+    def visit_Assert(self, node):
+        exc = ast.Call(func=ast.Name(id='AssertionError', ctx=ast.Load()), args=[node.msg] if node.msg is not None else [], keywords=[])
+        return ast.copy_location(ast.If(test=ast.UnaryOp(op=ast.Not(), operand=node.test), body=[ast.Raise(exc=exc, cause=None)], orelse=[]), node)
+
+
+TRANSFORMS = {'unparse': None, 'rename': Rename, 'augassign': AugAssign, 'swapcmp': SwapCmp, 'invertif': InvertIf, 'kwsort': KwSort, 'retvar': RetVar, 'ternary2if': Ternary2If, 'comp2loop': Comp2Loop, 'extractarg': ExtractArg, 'enum2range': Enum2Range, 'assert2raise': Assert2Raise}
 
 
 def transform(src, name):
